@@ -99,6 +99,16 @@ func c03Scenarios(batch int) []Scenario {
 			e.Deliver("C", e.W.C[7])
 		},
 		Check: commonCheck})
+	// SS4: two pending ranges and a head appended to the last one while the sync loop hands the first
+	// one to an asynchronous store
+	out = append(out, Scenario{Name: "SS4-two-ranges-async-store", Batch: batch, Cfg: WCfg{N: 12, S: 3},
+		Build: func(e *Env) {
+			e.AsyncStore()
+			e.Deliver("A", e.W.C[6])
+			e.Deliver("B", e.W.C[8])
+			e.Deliver("C", e.W.C[9])
+		},
+		Check: commonCheck})
 	if thoroughTier {
 		out = append(out, Scenario{Name: "SS3-forged-vs-target", Batch: batch, Cfg: WCfg{N: 10, S: 3, R: 2},
 			Build: func(e *Env) {
